@@ -707,35 +707,7 @@ def gen_script(rnd, tier="quick", logic_keys=None, tracking=None, engines=True, 
             hist = [mk_assert(t) for t in asserts] + [["check-sat"]]
     else:
         maxh = max_hist or (12 if tier == "quick" else 30)
-        popped = []
-        live = [[]]
-        pending = list(asserts)
-        steps = rnd.randint(4, maxh)
-        for _ in range(steps):
-            r = rnd.random()
-            if r < hist_w[0]:
-                if popped and rnd.random() < 0.25:
-                    t = rnd.choice(popped)
-                elif pending:
-                    t = pending.pop()
-                else:
-                    t = tg.boolean(rnd.randint(1, depth), pool)
-                hist.append(mk_assert(t))
-                live[-1].append(t)
-            elif r < hist_w[0] + hist_w[1]:
-                n = 1 if rnd.random() < 0.85 else 2
-                hist.append(["push", n])
-                for _ in range(n):
-                    live.append([])
-            elif r < hist_w[0] + hist_w[1] + hist_w[2] and len(live) > 1:
-                n = 1 if rnd.random() < 0.8 or len(live) < 3 else 2
-                hist.append(["pop", n])
-                for _ in range(n):
-                    popped += live.pop()
-            else:
-                hist.append(["check-sat"])
-        if not any(c[0] == "check-sat" for c in hist[-2:]):
-            hist.append(["check-sat"])
+        hist = gen_history(rnd, asserts, pool, tg, depth, mk_assert, rnd.randint(4, maxh), hist_w)
     cmds += hist
     nchk = sum(1 for c in cmds if c[0] == "check-sat")
     if nchk < min_checks:
@@ -785,6 +757,158 @@ def add_queries(rnd, script, L, tg, tracking, p=0.5):
             else:
                 out.append([k])
     script["cmds"] = out
+
+
+def negate(t):
+    return t[5:-1] if t.startswith("(not ") else "(not %s)" % t
+
+
+def gen_history(rnd, asserts, pool, tg, depth, mk_assert, steps, w):
+    """History of assert / push / pop / check-sat with the shapes C04 names: repeated checks, re-asserted popped
+    formulas, unsat levels that are popped and re-entered (a 'contradict' step asserts the negation of an active
+    assertion), nested levels with pop to an intermediate level followed by a check."""
+    hist = []
+    live = [[]]
+    popped = []
+    pending = list(asserts)
+    last = None
+    pa, pu, po = w
+    i = 0
+    if rnd.random() < 0.4:
+        return gen_churn(rnd, asserts, pool, tg, depth, mk_assert, steps)
+    while i < steps:
+        i += 1
+        r = rnd.random()
+        d = len(live) - 1
+        # after a check-sat inside a level: often pop (partially) and check again
+        if last == "check-sat" and d >= 1 and r < 0.35:
+            n = 1 if (d < 2 or rnd.random() < 0.7) else rnd.randint(1, d)
+            hist.append(["pop", n])
+            for _ in range(n):
+                popped += live.pop()
+            if rnd.random() < 0.7:
+                hist.append(["check-sat"])
+                last = "check-sat"
+            else:
+                last = "pop"
+            continue
+        if last == "push" and r < 0.8:
+            r = 0.0  # assert right after push
+        if r < pa:
+            act = [t for lv in live for t in lv]
+            q = rnd.random()
+            if q < 0.09 and d >= 1:
+                # a level that preprocessing alone reduces to false
+                a = rnd.choice(pool) if pool else "true"
+                t = rnd.choice(["false", "(and %s (not %s))" % (a, a), "(not (or %s (not %s)))" % (a, a),
+                                "(distinct %s %s)" % (a, a)])
+                hist.append(mk_assert(t))
+                live[-1].append(t)
+                last = "assert"
+                if rnd.random() < 0.7:
+                    hist.append(["check-sat"])
+                    last = "check-sat"
+                continue
+            if q < 0.2 and act and (d >= 1 or rnd.random() < 0.15):
+                t = negate(rnd.choice(act))          # contradict: makes the current level unsat
+            elif q < 0.38 and popped:
+                t = rnd.choice(popped)               # re-assert a popped formula
+            elif pending:
+                t = pending.pop()
+            else:
+                t = tg.boolean(rnd.randint(1, depth), pool)
+            hist.append(mk_assert(t))
+            live[-1].append(t)
+            last = "assert"
+        elif r < pa + pu and d < 4:
+            n = 1 if rnd.random() < 0.85 else 2
+            hist.append(["push", n])
+            for _ in range(n):
+                live.append([])
+            last = "push"
+        elif r < pa + pu + po and d >= 1:
+            n = 1 if (rnd.random() < 0.75 or d < 2) else 2
+            hist.append(["pop", n])
+            for _ in range(n):
+                popped += live.pop()
+            last = "pop"
+        else:
+            hist.append(["check-sat"])
+            last = "check-sat"
+    if last != "check-sat":
+        hist.append(["check-sat"])
+    return hist
+
+
+def gen_churn(rnd, asserts, pool, tg, depth, mk_assert, steps):
+    """Dense push/assert/check/pop churn: frame ids and stack positions diverge early, levels are frequently
+    unsat (by search or already by preprocessing) and every change is followed by a check."""
+    hist = []
+    live = [[]]
+    popped = []
+    pending = list(asserts)
+
+    def chk(p=0.8):
+        if rnd.random() < p:
+            hist.append(["check-sat"])
+
+    def new_assert():
+        act = [t for lv in live for t in lv]
+        d = len(live) - 1
+        q = rnd.random()
+        if q < 0.14 * d:
+            a = rnd.choice(pool) if pool else "true"
+            t = rnd.choice(["false", "(and %s (not %s))" % (a, a), "(not (or %s (not %s)))" % (a, a)])
+        elif q < 0.4 and act and d >= 1:
+            t = negate(rnd.choice(act))
+        elif q < 0.55 and popped:
+            t = rnd.choice(popped)
+        elif pending:
+            t = pending.pop()
+        else:
+            t = tg.boolean(rnd.randint(0, depth), pool)
+        hist.append(mk_assert(t))
+        live[-1].append(t)
+
+    for _ in range(rnd.randint(0, 2)):
+        new_assert()
+    n = 0
+    if rnd.random() < 0.5:
+        # quick enter/leave cycles first: from now on frame ids and stack positions differ
+        for _ in range(rnd.randint(1, 3)):
+            hist.append(["push", 1])
+            live.append([])
+            if rnd.random() < 0.6:
+                new_assert()
+                chk(0.5)
+            hist.append(["pop", 1])
+            popped += live.pop()
+            n += 2
+    while n < steps:
+        d = len(live) - 1
+        r = rnd.random()
+        if d == 0 or (r < 0.45 and d < 4):
+            k = 1 if rnd.random() < 0.9 else 2
+            hist.append(["push", k])
+            for _ in range(k):
+                live.append([])
+            new_assert()
+            chk()
+            n += 3
+        elif r < 0.8:
+            k = 1 if (d < 2 or rnd.random() < 0.75) else rnd.randint(1, d)
+            hist.append(["pop", k])
+            for _ in range(k):
+                popped += live.pop()
+            chk()
+            n += 2
+        else:
+            new_assert()
+            chk()
+            n += 2
+    if hist[-1][0] != "check-sat":
+        hist.append(["check-sat"])
+    return hist
 
 
 def render(script, exit_cmd=False):
